@@ -509,7 +509,7 @@ impl<R: Round> Context<R> {
             let n = ilog_exact(B, NewB);
             if n > 1 {
                 let exp = repr.exponent * n as isize;
-                return Exact(Repr::new(repr.significand, exp));
+                return self.repr_round(Repr::new(repr.significand, exp));
             }
         }
 
